@@ -94,6 +94,7 @@ def gen_mixed(rng, tier, kinds=None, allow_faults=True, ends=None, modes=("plain
 
 class C01(Prop):
     id = "C01"
+    track_states = True
     quick_runs = 2500
     thorough_runs = 40000
     assumptions = [
